@@ -101,6 +101,8 @@ def sequential(dc, sc, res, rng, label):
             return 'v%d;' % n[0] * 20
         if r < 0.5:
             return b'b%d' % n[0] * 30
+        if r < 0.6:
+            return gen.pick(rng, [None, 0, '', b'', False, 0.0])      # falsy payloads are items like any other
         return ('v', n[0])
 
     def fail(what, **extra):
